@@ -228,6 +228,43 @@ func c18Scenario(c *choice.Ctx, rep *report.R, k c18Kind, depth int) {
 				break
 			}
 		}
+		// the idle timeout of the pooled connections fires and closing a socket takes a moment: Close arrives while whoever closes
+		// the idle connection is still inside the socket close
+		if closes == 0 && (k.name == "reuse-tcp" || k.name == "pipeline-tcp") && len(d.OpenImplConns()) > 0 {
+			menu = append(menu, event{name: "idle-timeout-in-slow-socket-close+close", fault: true, do: func() {
+				var stalled []*env.End
+				for ci := 0; ci < d.NumConns(); ci++ {
+					if impl := d.ImplEnd(ci); !impl.IsClosed() {
+						impl.StallClose()
+						stalled = append(stalled, impl)
+					}
+				}
+				hsleep(10*time.Second + time.Millisecond) // both kinds run with a 10 s idle timeout
+				wait()
+				before := closeReturned
+				doClose()
+				for i := 0; i < 100000 && closeReturned == before; i++ {
+					parked := 0
+					for _, impl := range stalled {
+						parked += impl.ClosesParked()
+					}
+					if parked > 0 && i > 2000 {
+						break
+					}
+					hmu.Unlock()
+					runtime.Gosched()
+					hmu.Lock()
+				}
+				go func() {
+					// real time, not virtual: goroutines blocked on a mutex keep the bubble from idling
+					ts := syscall.NsecToTimespec(int64(3 * time.Millisecond))
+					syscall.Nanosleep(&ts, nil)
+					for _, impl := range stalled {
+						impl.ReleaseClose()
+					}
+				}()
+			}})
+		}
 		// non-initial state for the pipelined kinds: the live connection has used up its id space
 		if pt, ok := tr.(*PipelineTransport); ok && !exhausted && closes == 0 {
 			if pcs := poolConns(pt.pool); len(pcs) > 0 {
@@ -324,7 +361,7 @@ func TestVerifC18(t *testing.T) {
 	defer rep.Write()
 	depth := report.ParamInt("DEPTH", 5)
 	bound := report.ParamInt("FAULTS", 2)
-	rep.Rule = fmt.Sprintf("E3: real pipeline-tcp, pipeline-udp, reuse-tcp, DoH (scripted RoundTripper + closer) and DoQ (fake quic connection) transports; all sequences of length <=%d over {start exchange (<=3), make the next dial complete late (dial function honouring / ignoring its context), late dial completes, server replies, Close, second Close, Close that is slow inside a socket close while a dial completes, connection id space exhausted (pipelined), advance 2s} with <=%d deviations; "+
+	rep.Rule = fmt.Sprintf("E3: real pipeline-tcp, pipeline-udp, reuse-tcp, DoH (scripted RoundTripper + closer) and DoQ (fake quic connection) transports; all sequences of length <=%d over {start exchange (<=3), make the next dial complete late (dial function honouring / ignoring its context), late dial completes, server replies, Close, second Close, Close that is slow inside a socket close while a dial completes, the idle timeout firing with a slow socket close followed by Close, connection id space exhausted (pipelined), advance 2s} with <=%d deviations; "+
 		"oracle after every event: Close returned (it runs in its own goroutine so a blocked Close is observed, not a harness deadlock), no panic, Close idempotent, exchanges started after Close fail in the same instant, exchanges in flight return by their deadline, "+
 		"every connection the dialer ever produced (including dials completing after Close) is closed without advancing the clock, the transport's closer was called", depth, bound)
 	bubble(t, func() {
